@@ -184,10 +184,14 @@ def _remove_line_directives(csource):
 def _put_back_line_directives(csource, line_directives):
     def replace(m):
         s = m.group()
-        if not s.startswith('#line@'):
-            raise AssertionError("unexpected #line directive "
-                                 "(should have been processed and removed")
-        return line_directives[int(s[6:])]
+        try:
+            if not s.startswith('#line@'):
+                raise ValueError
+            return line_directives[int(s[6:])]
+        except (ValueError, IndexError):
+            raise CDefError("unexpected line directive %r (comments on the "
+                            "same line as a '#line' are not supported)"
+                            % (s.strip(),))
     return _r_line_directive.sub(replace, csource)
 
 def _preprocess(csource):
